@@ -240,7 +240,7 @@ fn irr(rng: &mut Rng, ctx: &mut Ctx) {
         let pad = Pad::default();
         let base = encode(&r);
         let (bl, bg) = read_line(&base, false, false);
-        let what = k % 6; // 0 unknown, 1 junk, 2 permute, 3 unknown+permute, 4 all, 5 a frame event carried by Message Splitter blocks
+        let what = (k + k / 6) % 6; // (drifts against the container shapes, which repeat every 12 cases)  0 unknown, 1 junk, 2 permute, 3 unknown+permute, 4 all, 5 a frame event carried by Message Splitter blocks
         let mut per_frame: Vec<Vec<Vec<u8>>> = r.frames.iter().map(|f| frame_events(&r, f, &pad)).collect();
         if what == 2 || what == 3 || what == 4 { for f in per_frame.iter_mut() { permute_body(f, rng); } }
         let mut body: Vec<Vec<u8>> = gecko_events(&r).into_iter().chain(per_frame.into_iter().flatten()).collect();
@@ -586,7 +586,7 @@ fn frag(rng: &mut Rng, ctx: &mut Ctx) {
         let (r, mut tags) = gen_replay(rng, k, &go);
         let b = encode(&r);
         let skip = k % 3 == 1 && r.end.is_some(); let hash = k % 4 != 3;
-        let (plan, pname) = plans(rng, b.len(), k / 2);
+        let (plan, pname) = plans(rng, b.len(), k / 2 + k / 12);
         let (fl, fg) = read_line(&b, skip, hash);
         let o = read_opts(skip, hash);
         let xx = format!("xxh3:{:016x}", xxhash_rust::xxh3::xxh3_64(&b));
